@@ -15,7 +15,10 @@ for p in "$@"; do
   VF_REPO=$wt VF_CACHE=/tmp/evalcache/$tag VF_EVIDENCE_DIR=$out/evidence VF_REPLAY_DIR=$out/replays \
     /venv/bin/python -W ignore -m vf.run $p --tier ${TIER:-quick} > $out/$p.log 2>&1
   rc=$?
-  echo "$tag $p rc=$rc $(( $(date +%s) - s ))s :: $(grep -E 'bucket=' $out/$p.log | cut -c1-160 | head -3 | tr '\n' '|')"
+  line="$tag $p rc=$rc $(( $(date +%s) - s ))s :: $(grep -E 'bucket=' $out/$p.log | cut -c1-160 | head -3 | tr '\n' '|')"
+  echo "$line"
+  # keep the outcome beside the seed (tier, exit code, first buckets)
+  [ -d /verif/seeded/$tag ] && echo "tier=${TIER:-quick} $line" >> /verif/seeded/$tag/eval.txt
 done
 git -C /repo worktree remove --force $wt
 rm -rf /tmp/evalcache/$tag
